@@ -38,7 +38,7 @@ PROPS = {
     'C04': dict(k1s=True, k2=[('walk', {'res', 'trace'}), ('async', {'res', 'trace'})], k1=[], k3=['types']),
     'C05': dict(k1s=True, k2=[('refuse', {'res', 'trace', 'holder'})], k1=[]),
     'C06': dict(k1s=True, k2=[('around', {'res', 'trace', 'holder'})], k1=[], k4=True),
-    'C07': dict(k2=[('walk', {'res', 'holder'})], k1=['verdict', 'struct', 'forest'], k3=['substate']),
+    'C07': dict(k2=[('walk', {'res', 'holder'})], k1=['verdict', 'struct', 'forest'], k3=['substate', 'methods']),
     'C08': dict(k1s=True, k2=[('data', {'res', 'trace', 'holder'}), ('walk', {'holder', 'trace'})], k1=[], k3=['types']),
     'C09': dict(k2=[('pair', ALL)], k1=[], direct=['pair'], k4=True),
     'C10': dict(names=True, k2=[('conv', {'res', 'holder', 'c'})], k1=[], k3=['types']),
